@@ -166,7 +166,7 @@ func runProb(r *Report, prop, typ, rp string) {
 					continue
 				}
 				nDiv++
-				r.ObSite(rp+"c", Site{fn, b, i, in}, "divisor", c.ProveAt(b, c.Lin(bo.Y).Add(konst(1), -1)), "grouping replies by the hash count divides by a value that must be proved >= 1 (zero panics, and makes every group empty)")
+				r.ObSite(rp+"c", Site{fn, b, i, in}, "divisor", c.ProveAtIdx(b, i, c.Lin(bo.Y).Add(konst(1), -1)), "grouping replies by the hash count divides by a value that must be proved >= 1 (zero panics, and makes every group empty)")
 			}
 		}
 		if fn.Name() == "ExistsMulti" && typ == "bloomFilter" {
